@@ -65,7 +65,7 @@ Proof.
 Qed.
 
 Lemma upd_spec {A} (f : A -> A) (l : list A) : forall i, i < length l ->
-  exists l', upd i f l = Done l' /\ length l' = length l /\
+  exists l', tupd i f l = Done l' /\ length l' = length l /\
     nth_error l' i = option_map f (nth_error l i) /\
     forall j, j <> i -> nth_error l' j = nth_error l j.
 Proof.
@@ -73,7 +73,7 @@ Proof.
   destruct i as [|i].
   - exists (f x :: l). cbn. repeat split; auto. intros [|j] Hj; [congruence|reflexivity].
   - destruct (IH i ltac:(lia)) as (l' & E & Hl & Hn & Ho).
-    exists (x :: l'). cbn [upd]. rewrite E. cbn. repeat split; auto.
+    exists (x :: l'). cbn [tupd]. rewrite E. cbn. repeat split; auto.
     intros [|j] Hj; cbn; auto.
 Qed.
 
@@ -141,10 +141,10 @@ Section Assemble.
   Fixpoint wf_node (n : tnode) : Prop :=
     match n with
     | TLeaf h l => h = LH l
-    | TBranch h a b => h = branch (node_hash a) (node_hash b) /\ wf_node a /\ wf_node b
+    | TBranch h a b => h = branch (tnode_hash a) (tnode_hash b) /\ wf_node a /\ wf_node b
     end.
 
-  Lemma wf_tap_hash n : wf_node n -> node_hash n = tap_hash n.
+  Lemma wf_tap_hash n : wf_node n -> tnode_hash n = tap_hash n.
   Proof.
     induction n as [h l|h a IHa b IHb]; cbn; auto.
     intros (E & Ha & Hb). rewrite E, IHa, IHb; auto.
@@ -152,7 +152,7 @@ Section Assemble.
   Lemma wf_mk_leaf l : wf_node (mk_leaf l). Proof. reflexivity. Qed.
   Lemma wf_mk_branch a b : wf_node a -> wf_node b -> wf_node (mk_branch a b).
   Proof. cbn. auto. Qed.
-  Lemma wf_hash_len n : wf_node n -> length (node_hash n) = 32.
+  Lemma wf_hash_len n : wf_node n -> length (tnode_hash n) = 32.
   Proof. destruct n; cbn. - intros ->. apply LH_len. - intros (-> & _). apply branch_len. Qed.
 
   (* the leaves below a node *)
@@ -250,8 +250,8 @@ Section Assemble.
       destruct (IH st1) as (st' & E' & Hl' & Hin' & Hout'); auto.
       { intros l Hl. apply Hin. right. auto. }
       { lia. }
-      exists st'. cbn [map add_to_leaves]. change (node_hash (mk_leaf x)) with (LH x).
-      rewrite (ix_pos jx x Hjx), E1. cbn [obind]. split; [exact E'|]. split; [exact Hl'|]. split.
+      exists st'. cbn [map add_to_leaves]. change (tnode_hash (mk_leaf x)) with (LH x).
+      rewrite (ix_pos jx x Hjx), E1. cbn [tobind]. split; [exact E'|]. split; [exact Hl'|]. split.
       + intros j l Hj [Hl|Hl].
         * subst l. assert (j = jx) by (exact (NoDup_nth_same ls j jx x ls_nodup_leaves Hj Hjx)). subst j.
           rewrite (Hout' jx x Hjx Hx). exact Hn1.
@@ -286,7 +286,7 @@ Section Assemble.
 
   Definition Inv (q : list tnode) (st : list proof_entry) : Prop :=
     length st = n /\ Forall wf_node q /\ NoDup (flat q) /\ (forall l, In l (flat q) -> In l ls) /\
-    (forall b, In b q -> forall l, In l (tleaves b) -> good st l (node_hash b)).
+    (forall b, In b q -> forall l, In l (tleaves b) -> good st l (tnode_hash b)).
 
   Lemma flat_cons a q : flat (a :: q) = tleaves a ++ flat q. Proof. reflexivity. Qed.
   Lemma flat_app a b : flat (a ++ b) = flat a ++ flat b.
@@ -298,8 +298,8 @@ Section Assemble.
   Lemma merge_step L R rest st :
     Inv (L :: R :: rest) st ->
     exists st1 st2,
-      add_to_leaves ix (leaves_of L) (node_hash R) st = Done st1 /\
-      add_to_leaves ix (leaves_of R) (node_hash L) st1 = Done st2 /\
+      add_to_leaves ix (leaves_of L) (tnode_hash R) st = Done st1 /\
+      add_to_leaves ix (leaves_of R) (tnode_hash L) st1 = Done st2 /\
       Inv (rest ++ [mk_branch L R]) st2.
   Proof.
     intros (Hlen & Hwf & Hnd & Hsub & Hgood).
@@ -311,9 +311,9 @@ Section Assemble.
     { intros l Hl. eapply NoDup_app_disj; eauto. }
     assert (Hdisj2 : forall l, In l (tleaves R) -> ~ In l (flat rest)).
     { apply NoDup_app_remove_l in Hnd. intros l Hl. eapply NoDup_app_disj; eauto. }
-    destruct (add_leaves_spec (node_hash R) (tleaves L) st) as (st1 & E1 & Hl1 & Hin1 & Hout1); auto.
+    destruct (add_leaves_spec (tnode_hash R) (tleaves L) st) as (st1 & E1 & Hl1 & Hin1 & Hout1); auto.
     { intros l Hl. apply Hsub. apply in_or_app. auto. }
-    destruct (add_leaves_spec (node_hash L) (tleaves R) st1) as (st2 & E2 & Hl2 & Hin2 & Hout2); auto.
+    destruct (add_leaves_spec (tnode_hash L) (tleaves R) st1) as (st2 & E2 & Hl2 & Hin2 & Hout2); auto.
     { intros l Hl. apply Hsub. apply in_or_app. right. apply in_or_app. auto. }
     exists st1, st2. rewrite !leaves_of_tleaves by auto. split; [exact E1|]. split; [exact E2|].
     split; [exact Hl2|]. split.
@@ -331,7 +331,7 @@ Section Assemble.
       { intro HR. apply (Hdisj2 l HR). eapply in_flat; eauto. }
       eapply good_keep; [exact Hout2|exact HnR|]. eapply good_keep; [exact Hout1|exact HnL|].
       apply Hgood; auto. right. right. auto.
-    - cbn [tleaves Taproot.mk_branch] in Hl. change (node_hash (mk_branch L R)) with (branch (node_hash L) (node_hash R)).
+    - cbn [tleaves Taproot.mk_branch] in Hl. change (tnode_hash (mk_branch L R)) with (branch (tnode_hash L) (tnode_hash R)).
       apply in_app_or in Hl. destruct Hl as [Hl|Hl].
       + assert (HnR : ~ In l (tleaves R)).
         { intro HR. apply (Hdisj l Hl). apply in_or_app. auto. }
@@ -361,7 +361,7 @@ Section Assemble.
         { rewrite app_length. cbn in *. lia. }
         { destruct r; discriminate. }
         { rewrite map_app. exact Hinv2. }
-        exists root, st'. cbn [merge_phase]. rewrite E1. cbn [obind]. rewrite E2. cbn [obind].
+        exists root, st'. cbn [merge_phase]. rewrite E1. cbn [tobind]. rewrite E2. cbn [tobind].
         split; [exact E|]. split; [exact Hroot|].
         eapply Permutation_trans; [exact Hperm|].
         rewrite map_app, flat_app. cbn [map]. rewrite !flat_cons. unfold flat at 2. cbn [map concat]. rewrite app_nil_r.
@@ -375,7 +375,7 @@ Section Assemble.
   Definition PInv (done : list tapleaf) (q : list tbranch) (st : list proof_entry) : Prop :=
     length st = n /\ Forall leafpair q /\ flat (map bnode q) = done /\
     (forall j, length done <= j -> j < n -> nth_error st j = Some zero_entry) /\
-    (forall b, In b q -> forall l, In l (tleaves (bnode b)) -> good st l (node_hash (bnode b))).
+    (forall b, In b q -> forall l, In l (tleaves (bnode b)) -> good st l (tnode_hash (bnode b))).
 
   Lemma leafpair_wf b : leafpair b -> wf_node (bnode b).
   Proof. intros (x & y & ->). cbn. auto. Qed.
@@ -423,23 +423,23 @@ Section Assemble.
       assert (Hwbt : wf_node bt) by (cbn; auto).
       assert (Hi : length done < length st).
       { rewrite Hlen. unfold n. rewrite Hls, app_length. cbn. lia. }
-      destruct (upd_spec (set_leaf_add x (node_hash bt)) st _ Hi) as (st1 & E1 & Hl1 & Hn1 & Ho1).
-      rewrite E1. cbn [obind].
+      destruct (upd_spec (set_leaf_add x (tnode_hash bt)) st _ Hi) as (st1 & E1 & Hl1 & Hn1 & Ho1).
+      rewrite E1. cbn [tobind].
       assert (Hdone_ab : flat (map bnode ini) ++ [a; b] = done).
       { rewrite <- Hflat, Eq, map_app, flat_app. reflexivity. }
       assert (Hnd_done : NoDup done).
       { pose proof ls_nodup_leaves as H. rewrite Hls in H. apply NoDup_app_remove_r in H. auto. }
       assert (Hab_in : forall l, In l [a; b] -> In l done).
       { intros l Hl. rewrite <- Hdone_ab. apply in_or_app. auto. }
-      destruct (add_leaves_spec (node_hash (mk_leaf x)) [a; b] st1) as (st3 & E3 & Hl3 & Hin3 & Hout3).
+      destruct (add_leaves_spec (tnode_hash (mk_leaf x)) [a; b] st1) as (st3 & E3 & Hl3 & Hin3 & Hout3).
       { intros l Hl. rewrite Hls. apply in_or_app. left. auto. }
       { rewrite <- Hdone_ab in Hnd_done. apply NoDup_app_remove_l in Hnd_done. auto. }
       { lia. }
       cbn [map add_to_leaves] in E3.
-      destruct (upd (idx_get ix (node_hash (mk_leaf a))) (add_proof (node_hash (mk_leaf x))) st1) as [st2| |] eqn:E2; try discriminate.
-      cbn [obind] in E3 |- *.
-      destruct (upd (idx_get ix (node_hash (mk_leaf b))) (add_proof (node_hash (mk_leaf x))) st2) as [st3'| |] eqn:E3'; try discriminate.
-      cbn [obind] in E3. injection E3 as <-. cbn [obind].
+      destruct (tupd (idx_get ix (tnode_hash (mk_leaf a))) (add_proof (tnode_hash (mk_leaf x))) st1) as [st2| |] eqn:E2; try discriminate.
+      cbn [tobind] in E3 |- *.
+      destruct (tupd (idx_get ix (tnode_hash (mk_leaf b))) (add_proof (tnode_hash (mk_leaf x))) st2) as [st3'| |] eqn:E3'; try discriminate.
+      cbn [tobind] in E3. injection E3 as <-. cbn [tobind].
       exists (ini ++ [(bt, mk_leaf x)]), st3'. split; [reflexivity|].
       assert (Hx_pos : nth_error ls (length done) = Some x).
       { rewrite Hls, nth_error_app2, Nat.sub_diag; auto. }
@@ -469,25 +469,25 @@ Section Assemble.
         { intros j Hj. apply Ho1. lia. }
         apply Hgood; auto. rewrite Eq. apply in_or_app. auto.
       + change (tleaves (bnode (bt, mk_leaf x))) with ([a; b] ++ [x]) in Hl.
-        change (node_hash (bnode (bt, mk_leaf x))) with (branch (node_hash bt) (node_hash (mk_leaf x))).
+        change (tnode_hash (bnode (bt, mk_leaf x))) with (branch (tnode_hash bt) (tnode_hash (mk_leaf x))).
         apply in_app_or in Hl. destruct Hl as [Hl|[<-|[]]].
         * eapply good_add; [apply LH_len|exact Hin3|exact Hl|].
           eapply (good_untouched done [x]); [exact Hls| |apply Hab_in; exact Hl|].
           { intros j Hj. apply Ho1. lia. }
           apply Hgood; auto. rewrite Eq. apply in_or_app. right. left. auto.
         * eapply good_keep; [exact Hout3|exact Hx_notin|].
-          exists (length done), (set_leaf_add x (node_hash bt) zero_entry).
+          exists (length done), (set_leaf_add x (tnode_hash bt) zero_entry).
           split; auto. split. { rewrite Hn1, Hzero; auto. unfold n. rewrite Hls, app_length. cbn. lia. }
           split; auto. split. { exists 1. cbn [pe_proof set_leaf_add zero_entry app]. rewrite (wf_hash_len bt Hwbt). reflexivity. }
           cbn [pe_proof set_leaf_add zero_entry app]. rewrite branch_comm.
-          rewrite <- (app_nil_l (node_hash bt)). rewrite (proof_root_app [] _ _ 0); auto.
+          rewrite <- (app_nil_l (tnode_hash bt)). rewrite (proof_root_app [] _ _ 0); auto.
           apply wf_hash_len; auto.
     - (* two more leaves *)
       cbn [pair_pass].
       assert (Hn_ge : S (length done) < n). { unfold n. rewrite Hls, app_length. cbn. lia. }
-      destruct (upd_spec (set_leaf_add x (node_hash (mk_leaf y))) st (length done)) as (st1 & E1 & Hl1 & Hn1 & Ho1); [lia|].
-      destruct (upd_spec (set_leaf_add y (node_hash (mk_leaf x))) st1 (S (length done))) as (st2 & E2 & Hl2 & Hn2 & Ho2); [lia|].
-      rewrite E1. cbn [obind]. rewrite E2. cbn [obind].
+      destruct (upd_spec (set_leaf_add x (tnode_hash (mk_leaf y))) st (length done)) as (st1 & E1 & Hl1 & Hn1 & Ho1); [lia|].
+      destruct (upd_spec (set_leaf_add y (tnode_hash (mk_leaf x))) st1 (S (length done))) as (st2 & E2 & Hl2 & Hn2 & Ho2); [lia|].
+      rewrite E1. cbn [tobind]. rewrite E2. cbn [tobind].
       specialize (IH (done ++ [x; y]) (q ++ [(mk_leaf x, mk_leaf y)]) st2).
       rewrite app_length in IH. cbn [length] in IH. replace (length done + 2) with (S (S (length done))) in IH by lia.
       apply IH. { rewrite <- app_assoc. exact Hls. }
@@ -505,7 +505,7 @@ Section Assemble.
         eapply (good_untouched done (x :: y :: rest)); [exact Hls| |exact Hl_done|apply Hgood; auto].
         intros j Hj. rewrite Ho2, Ho1 by lia. reflexivity.
       + change (tleaves (bnode (mk_leaf x, mk_leaf y))) with [x; y] in Hl.
-        change (node_hash (bnode (mk_leaf x, mk_leaf y))) with (branch (LH x) (LH y)).
+        change (tnode_hash (bnode (mk_leaf x, mk_leaf y))) with (branch (LH x) (LH y)).
         destruct Hl as [<-|[<-|[]]].
         * exists (length done), (set_leaf_add x (LH y) zero_entry). split; auto. split.
           { rewrite Ho2 by lia. rewrite Hn1, Hzero by lia. reflexivity. }
@@ -536,7 +536,7 @@ Section AssembleMain.
     forall i l, nth_error ls i = Some l ->
       exists e, nth_error st i = Some e /\ pe_leaf e = l /\
         (exists k, length (pe_proof e) = 32 * k) /\
-        proof_root BHR (pe_proof e) (LH l) = node_hash root.
+        proof_root BHR (pe_proof e) (LH l) = tnode_hash root.
 
   Theorem every_leaf_proves_root ls :
     NoDup (map LH ls) -> ls <> [] -> exists root st, assembled ls root st.
@@ -557,7 +557,7 @@ Section AssembleMain.
       destruct (merge_phase_correct LH BHR LH_len BHR_len ls Hnd (length brs) brs st1)
         as (root & st & E2 & Hroot & Hperm); auto.
       exists root, st. split.
-      { unfold assemble. fold ls. cbn [length] in E1. rewrite E1. cbn [obind fst snd]. exact E2. }
+      { unfold assemble. fold ls. cbn [length] in E1. rewrite E1. cbn [tobind fst snd]. exact E2. }
       destruct Hroot as (Hlen & Hwf & _ & _ & Hgood). inversion Hwf; subst.
       split; auto. rewrite Hflat1 in Hperm. split; auto. split; auto.
       intros i l Hi.
@@ -570,8 +570,22 @@ Section AssembleMain.
 
   (* the root hash is the one TapHash() recomputes from the tree *)
   Corollary assembled_root_hash ls root st :
-    assembled ls root st -> node_hash root = tap_hash LH BHR root.
+    assembled ls root st -> tnode_hash root = tap_hash LH BHR root.
   Proof. intros (_ & Hwf & _). apply wf_tap_hash. exact Hwf. Qed.
+  (* the same, written out *)
+  Theorem every_leaf_proves_root_full ls :
+    NoDup (map LH ls) -> ls <> [] ->
+    exists root st,
+      assemble LH BHR ls = Done (Some root, st) /\
+      tnode_hash root = tap_hash LH BHR root /\ Permutation (tleaves root) ls /\ length st = length ls /\
+      forall i l, nth_error ls i = Some l ->
+        exists e, nth_error st i = Some e /\ pe_leaf e = l /\
+          (exists k, length (pe_proof e) = 32 * k) /\
+          proof_root BHR (pe_proof e) (LH l) = tnode_hash root.
+  Proof.
+    intros Hnd Hne. destruct (every_leaf_proves_root ls Hnd Hne) as (root & st & Ha).
+    exists root, st. pose proof (assembled_root_hash ls root st Ha). unfold assembled in Ha. tauto.
+  Qed.
 End AssembleMain.
 
 (* ------------------------------------------------------------------ *)
@@ -603,7 +617,7 @@ Proof.
 Qed.
 
 Lemma to_cb_root LH BHR e keyx odd :
-  cb_root LH BHR (to_cb e keyx odd) (tl_script (pe_leaf e)) = proof_root BHR (pe_proof e) (LH (pe_leaf e)).
+  cb_root LH BHR (to_cb e keyx odd) (tlf_script (pe_leaf e)) = proof_root BHR (pe_proof e) (LH (pe_leaf e)).
 Proof. unfold cb_root, to_cb. cbn. destruct (pe_leaf e); reflexivity. Qed.
 
 (* psetv2 InputTapLeafScript key pair round-trips when the leaf version of the control
@@ -615,7 +629,7 @@ Proof.
 Qed.
 
 Theorem tapleaf_kv_roundtrip liftable l c :
-  wf_cb liftable c -> cb_version c = tl_version l ->
+  wf_cb liftable c -> cb_version c = tlf_version l ->
   parse_tapleaf_kv liftable (fst (tapleaf_kv l c)) (snd (tapleaf_kv l c)) = KvOk l c.
 Proof.
   intros Hwf Hv. unfold parse_tapleaf_kv, tapleaf_kv. cbn [fst snd].
@@ -625,7 +639,7 @@ Proof.
   2:{ symmetry. apply Z.eqb_eq. unfold ser_cb. cbn [length]. rewrite app_length, Hk, Hp.
       replace (Z.of_nat (S (32 + 32 * k)) - 1)%Z with ((1 + Z.of_nat k) * 32)%Z by lia.
       apply Z.rem_mul. lia. }
-  cbn [negb]. replace (beqb (cb_version c) (tl_version l)) with true.
+  cbn [negb]. replace (beqb (cb_version c) (tlf_version l)) with true.
   2:{ symmetry. apply beqb_eq. exact Hv. }
   cbn [negb]. rewrite Hv. destruct l; reflexivity.
 Qed.
@@ -691,7 +705,7 @@ Section Verify.
     proof_root BHR (pe_proof e) (LH (pe_leaf e)) = root ->
     output_key p root = Some q ->
     exists cb, to_control_block e p root = Some cb /\ cb_odd cb = odd_y q /\ cb_key cb = xonly p /\
-      verify cb (xonly q) (tl_script (pe_leaf e)) = Some true.
+      verify cb (xonly q) (tlf_script (pe_leaf e)) = Some true.
   Proof.
     intros Hroot Hq. unfold Taproot.to_control_block. rewrite Hq.
     exists (to_cb e (xonly p) (odd_y q)). split; [reflexivity|]. split; [reflexivity|]. split; [reflexivity|].
@@ -705,11 +719,11 @@ Section Verify.
   Theorem every_leaf_verifies ls p :
     NoDup (map LH ls) -> ls <> [] ->
     exists root st, assembled LH BHR ls root st /\
-      forall q, output_key p (node_hash root) = Some q ->
+      forall q, output_key p (tnode_hash root) = Some q ->
       forall i l, nth_error ls i = Some l ->
         exists e cb, nth_error st i = Some e /\ pe_leaf e = l /\
-          to_control_block e p (node_hash root) = Some cb /\ cb_odd cb = odd_y q /\
-          verify cb (xonly q) (tl_script l) = Some true /\
+          to_control_block e p (tnode_hash root) = Some cb /\ cb_odd cb = odd_y q /\
+          verify cb (xonly q) (tlf_script l) = Some true /\
           forall liftable, wf_cb liftable cb -> parse_cb liftable (ser_cb cb) = Some cb.
   Proof.
     intros Hnd Hne. destruct (every_leaf_proves_root LH BHR LH_len BHR_len ls Hnd Hne) as (root & st & Hasm).
@@ -723,7 +737,7 @@ Section Verify.
      as the key is a valid x-only key, the leaf version has bit 0 clear and the proof has
      at most 128 nodes (a tree deeper than 128 cannot be built in memory) *)
   Lemma wf_cb_of_entry liftable e keyx odd k :
-    length keyx = 32 -> liftable keyx = true -> N.testbit (n8 (tl_version (pe_leaf e))) 0%N = false ->
+    length keyx = 32 -> liftable keyx = true -> N.testbit (n8 (tlf_version (pe_leaf e))) 0%N = false ->
     length (pe_proof e) = 32 * k -> k <= 128 -> wf_cb liftable (to_cb e keyx odd).
   Proof. intros. unfold wf_cb, to_cb. cbn. repeat split; auto. exists k. auto. Qed.
 End Verify.
@@ -777,10 +791,10 @@ Section Negative.
   Theorem other_script_or_version_fails c prog s v' s' :
     mk_tapleaf v' s' <> mk_tapleaf (cb_version c) s ->
     verify c prog s = Some true ->
-    verify (mk_cb (cb_key c) (cb_odd c) v' (cb_proof c)) prog s' <> Some true.
+    verify (mk_cblock (cb_key c) (cb_odd c) v' (cb_proof c)) prog s' <> Some true.
   Proof.
     intros Hne H1 H2. apply Hne.
-    pose proof (verify_same_root c (mk_cb (cb_key c) (cb_odd c) v' (cb_proof c)) prog s s' eq_refl eq_refl H1 H2) as Hr.
+    pose proof (verify_same_root c (mk_cblock (cb_key c) (cb_odd c) v' (cb_proof c)) prog s s' eq_refl eq_refl H1 H2) as Hr.
     unfold cb_root, proof_root in Hr. cbn [cb_proof cb_version] in Hr.
     apply root_from_inj_acc in Hr. apply LH_inj in Hr. congruence.
   Qed.
@@ -807,10 +821,10 @@ Section Negative.
     cb_proof c = p1 ++ x ++ p2 -> length p1 = 32 * j -> length x = 32 -> length x' = 32 ->
     length p2 = 32 * m -> x' <> x ->
     verify c prog s = Some true ->
-    verify (mk_cb (cb_key c) (cb_odd c) (cb_version c) (p1 ++ x' ++ p2)) prog s <> Some true.
+    verify (mk_cblock (cb_key c) (cb_odd c) (cb_version c) (p1 ++ x' ++ p2)) prog s <> Some true.
   Proof.
     intros Hp H1l Hx Hx' H2l Hne H1 H2. apply Hne.
-    pose proof (verify_same_root c (mk_cb (cb_key c) (cb_odd c) (cb_version c) (p1 ++ x' ++ p2)) prog s s eq_refl eq_refl H1 H2) as Hr.
+    pose proof (verify_same_root c (mk_cblock (cb_key c) (cb_odd c) (cb_version c) (p1 ++ x' ++ p2)) prog s s eq_refl eq_refl H1 H2) as Hr.
     unfold cb_root, proof_root in Hr. cbn [cb_proof cb_version] in Hr. rewrite Hp in Hr.
     rewrite !app_length, H1l, H2l, Hx, Hx' in Hr.
     replace ((32 * j + (32 + 32 * m)) / 32) with (j + S m) in Hr.
@@ -822,7 +836,7 @@ Section Negative.
   (* the parity bit flipped *)
   Theorem wrong_parity_fails c prog s :
     verify c prog s = Some true ->
-    verify (mk_cb (cb_key c) (negb (cb_odd c)) (cb_version c) (cb_proof c)) prog s <> Some true.
+    verify (mk_cblock (cb_key c) (negb (cb_odd c)) (cb_version c) (cb_proof c)) prog s <> Some true.
   Proof.
     unfold verify_commitment, cb_root. cbn [cb_key cb_odd cb_version cb_proof].
     destruct (output_key_x _ _ _ _ _ _ _ _) as [q|]; [|discriminate].
@@ -859,8 +873,8 @@ Section Tweak.
     lift_x (xonly (mulG d)) = Some (if odd_y (mulG d) then pneg (mulG d) else mulG d).
   Hypothesis xonly_neg : forall d, xonly (pneg (mulG d)) = xonly (mulG d).
   (* scalar multiplication of the generator is a homomorphism from Z/n *)
-  Hypothesis mulG_add : forall a b, mulG ((a + b) mod secp_n)%Z = padd (mulG a) (mulG b).
-  Hypothesis mulG_negate : forall a, mulG ((secp_n - a) mod secp_n)%Z = pneg (mulG a).
+  Hypothesis mulG_add : forall a b, mulG ((a + b) mod tap_n)%Z = padd (mulG a) (mulG b).
+  Hypothesis mulG_negate : forall a, mulG ((tap_n - a) mod tap_n)%Z = pneg (mulG a).
 
   Notation output_key := (output_key point padd mulG lift_x xonly TS).
   Notation tweak_priv_ec := (tweak_priv_ec point mulG xonly odd_y TS).
@@ -882,20 +896,20 @@ Section Tweak.
 End Tweak.
 
 (* "tweaking leaves the caller's key unchanged":
-      forall pk_odd pkx d root, 0 <= d < secp_n -> snd (tweak_priv pk_odd pkx d root) = d
+      forall pk_odd pkx d root, 0 <= d < tap_n -> snd (tweak_priv pk_odd pkx d root) = d
    is FALSE of the code (privKeyScalar := &privKey.Key aliases the caller's scalar,
    Negate and Add work in place).  What holds: *)
 Theorem tweak_preserves_caller_key_partial TS pkx d root :
-  (0 <= d < secp_n)%Z -> TS pkx root = 0%Z ->
+  (0 <= d < tap_n)%Z -> TS pkx root = 0%Z ->
   snd (tweak_priv_with TS false pkx d root) = d.
 Proof.
   intros Hd Ht. unfold tweak_priv_with. cbn [snd]. rewrite Ht, Z.add_0_r. apply Z.mod_small. exact Hd.
 Qed.
 
 Theorem tweak_preserves_caller_key_refuted :
-  exists pk_odd pkx d root, (0 <= d < secp_n)%Z /\ snd (tweak_priv pk_odd pkx d root) <> d.
+  exists pk_odd pkx d root, (0 <= d < tap_n)%Z /\ snd (tweak_priv pk_odd pkx d root) <> d.
 Proof.
-  exists false, (repeat x01 32), 1%Z, (repeat x00 32). split; [unfold secp_n; lia|].
+  exists false, (repeat x01 32), 1%Z, (repeat x00 32). split; [unfold tap_n; lia|].
   vm_compute. discriminate.
 Qed.
 
@@ -927,7 +941,7 @@ Example ex_assemble : exists root st, assembled leaf_hash branch_hash_raw ex_lea
 Proof. destruct ex_assemble_hyps. apply every_leaf_proves_root_sha; assumption. Qed.
 
 (* (b) negative theorems: a free term algebra for the hashes, the integers as group *)
-Definition toy_LH (l : tapleaf) : bytes := tl_version l :: tl_script l.
+Definition toy_LH (l : tapleaf) : bytes := tlf_version l :: tlf_script l.
 Fixpoint toy_esc (a : bytes) : bytes := match a with [] => [] | x :: r => x01 :: x :: toy_esc r end.
 Definition toy_BHR (a b : bytes) : bytes := toy_esc a ++ x00 :: b.
 Fixpoint toy_enc (r : bytes) : Z := match r with [] => 0%Z | b :: r' => (1 + Z.of_N (n8 b) + 256 * toy_enc r')%Z end.
@@ -961,58 +975,56 @@ Example ex_negative_hyps :
   (forall p a b : point, padd p a = padd p b -> a = b) /\
   (forall a b : point, toy_xonly a = toy_xonly b -> toy_odd a = toy_odd b -> a = b) /\
   (* and a verifying control block exists in this instance *)
-  (let c := mk_cb [] false x00 [] in
+  (let c := mk_cblock [] false x00 [] in
    verify_commitment point padd mulG (fun _ => Some 5%Z) toy_xonly toy_odd TS toy_LH toy_BHR c
      (toy_xonly (5 + toy_enc (toy_LH (mk_tapleaf x00 [x51])))) [x51] = Some true).
 Proof.
-  cbv zeta. repeat split.
+  cbv zeta. split; [|split; [|split; [|split; [|split]]]].
   - intros [v s] [v' s'] H. unfold toy_LH in H. cbn in H. congruence.
-  - eapply toy_BHR_inj; eauto.
-  - eapply toy_BHR_inj; eauto.
+  - intros a b c d H. eapply toy_BHR_inj; eauto.
   - intros _ r r'. apply toy_enc_inj.
   - intros p a b. lia.
   - intros a b Hx Ho. unfold toy_xonly in Hx. apply (f_equal (@length byte)) in Hx.
     rewrite !repeat_length in Hx. unfold toy_odd in Ho. lia.
+  - vm_compute. reflexivity.
 Qed.
 
 (* (c) tweak theorem: Z/n with "odd" = upper half, x-only = the smaller of p and -p *)
-Definition zn_mulG (d : Z) : Z := (d mod secp_n)%Z.
-Definition zn_add (a b : Z) : Z := ((a + b) mod secp_n)%Z.
-Definition zn_neg (a : Z) : Z := ((secp_n - a) mod secp_n)%Z.
+Definition zn_mulG (d : Z) : Z := (d mod tap_n)%Z.
+Definition zn_add (a b : Z) : Z := ((a + b) mod tap_n)%Z.
+Definition zn_neg (a : Z) : Z := ((tap_n - a) mod tap_n)%Z.
 Definition zn_odd (p : Z) : bool := (zn_neg p <? p)%Z.
 Definition zn_xonly (p : Z) : bytes := scalar_to_bytes (Z.min p (zn_neg p)).
 Definition zn_lift (b : bytes) : option Z := Some (Z.of_N (be_dec b)).
 
-Lemma secp_n_bound : (0 < secp_n < 2 ^ 256)%Z.
-Proof. unfold secp_n. lia. Qed.
+Lemma secp_n_bound : (0 < tap_n < 2 ^ 256)%Z.
+Proof. unfold tap_n. lia. Qed.
 
 Example ex_tweak_hyps :
   (forall d, zn_lift (zn_xonly (zn_mulG d)) = Some (if zn_odd (zn_mulG d) then zn_neg (zn_mulG d) else zn_mulG d)) /\
   (forall d, zn_xonly (zn_neg (zn_mulG d)) = zn_xonly (zn_mulG d)) /\
-  (forall a b, zn_mulG ((a + b) mod secp_n)%Z = zn_add (zn_mulG a) (zn_mulG b)) /\
-  (forall a, zn_mulG ((secp_n - a) mod secp_n)%Z = zn_neg (zn_mulG a)) /\
+  (forall a b, zn_mulG ((a + b) mod tap_n)%Z = zn_add (zn_mulG a) (zn_mulG b)) /\
+  (forall a, zn_mulG ((tap_n - a) mod tap_n)%Z = zn_neg (zn_mulG a)) /\
   (* both parities occur *)
   zn_odd (zn_mulG 1) = false /\ zn_odd (zn_mulG (-1)) = true.
 Proof.
   pose proof secp_n_bound as Hn.
-  assert (Hneg : forall p, (0 <= p < secp_n)%Z -> (0 <= zn_neg p < secp_n)%Z /\ zn_neg (zn_neg p) = p /\
-                 (zn_neg p = 0 /\ p = 0 \/ zn_neg p = secp_n - p /\ 0 < p)%Z).
+  assert (Hneg : forall p, (0 <= p < tap_n)%Z -> (0 <= zn_neg p < tap_n)%Z /\ zn_neg (zn_neg p) = p /\
+                 (zn_neg p = 0 /\ p = 0 \/ zn_neg p = tap_n - p /\ 0 < p)%Z).
   { intros p Hp. unfold zn_neg. destruct (Z.eq_dec p 0) as [->|Hp0].
     - rewrite Z.sub_0_r, Z_mod_same_full, Z.sub_0_r, Z_mod_same_full. lia.
-    - rewrite (Z.mod_small (secp_n - p)) by lia. replace (secp_n - (secp_n - p))%Z with p by lia.
+    - rewrite (Z.mod_small (tap_n - p)) by lia. replace (tap_n - (tap_n - p))%Z with p by lia.
       rewrite Z.mod_small by lia. lia. }
   repeat split.
-  - intro d. unfold zn_mulG. pose proof (Z.mod_pos_bound d secp_n ltac:(lia)) as Hp.
-    set (p := (d mod secp_n)%Z) in *. destruct (Hneg p Hp) as (Hb & _ & _).
+  - intro d. unfold zn_mulG. pose proof (Z.mod_pos_bound d tap_n ltac:(lia)) as Hp.
+    set (p := (d mod tap_n)%Z) in *. destruct (Hneg p Hp) as (Hb & _ & _).
     unfold zn_lift, zn_xonly, scalar_to_bytes, zn_odd. f_equal.
     rewrite be_dec_enc. 2:{ change (256 ^ N.of_nat 32)%N with (Z.to_N (2 ^ 256)). lia. }
     destruct (Z.ltb_spec (zn_neg p) p); lia.
-  - intro d. unfold zn_mulG. pose proof (Z.mod_pos_bound d secp_n ltac:(lia)) as Hp.
-    set (p := (d mod secp_n)%Z) in *. destruct (Hneg p Hp) as (_ & Hinv & _).
+  - intro d. unfold zn_mulG. pose proof (Z.mod_pos_bound d tap_n ltac:(lia)) as Hp.
+    set (p := (d mod tap_n)%Z) in *. destruct (Hneg p Hp) as (_ & Hinv & _).
     unfold zn_xonly. rewrite Hinv, Z.min_comm. reflexivity.
   - intros a b. unfold zn_mulG, zn_add. rewrite Z.mod_mod by lia. apply Zplus_mod.
   - intro a. unfold zn_mulG, zn_neg. rewrite Z.mod_mod by lia.
-    rewrite (Zminus_mod secp_n a), (Zminus_mod secp_n (a mod secp_n)), Z.mod_mod by lia. reflexivity.
-  - vm_compute. reflexivity.
-  - vm_compute. reflexivity.
+    rewrite (Zminus_mod tap_n a), (Zminus_mod tap_n (a mod tap_n)), Z.mod_mod by lia. reflexivity.
 Qed.
